@@ -258,10 +258,40 @@ func kindsHavePanic(progs []any) bool {
 
 func behSize(b behSpec) int { return len(b.il) + len(b.lt) }
 
+func settles(b behSpec) bool {
+	return !b.pan && len(b.il)+len(b.lt) == 1
+}
+
+func isConcOp(name string) bool {
+	switch name {
+	case "OConc", "OConcN", "OConcW", "OConcReg", "OConcS":
+		return true
+	}
+	return false
+}
+
 func valid(ops []hx.T) bool {
 	hasChain := false
 	total := 0
+	tracked, hasConc, hasOther := false, false, false
+	// the shared lists a script declares: the first declaration of an id wins
+	lists := map[int64][]behSpec{}
 	for _, o := range ops {
+		if o.Name == "OList" {
+			if _, ok := lists[o.Int(0)]; !ok {
+				lists[o.Int(0)] = parseTasks(o.List(1))
+			}
+		}
+	}
+	for _, o := range ops {
+		switch {
+		case o.Name == "OSetId":
+			tracked = true
+		case isConcOp(o.Name):
+			hasConc = true
+		default:
+			hasOther = true
+		}
 		switch o.Name {
 		case "OPost":
 			if p := o.Int(0); p < 0 || p >= nPosters {
@@ -331,11 +361,55 @@ func valid(ops []hx.T) bool {
 			if g := o.Int(1); g < 1 || g > 32 {
 				return false
 			}
+		case "OSetId":
+			if v := o.Int(0); v < 0 || v >= 1<<32 {
+				return false
+			}
+		case "OList":
+			hasChain = true
+			if l := o.Int(0); l < 0 || l >= 64 {
+				return false
+			}
+		case "OShare":
+			hasChain = true
+			if o.Int(0) < 0 {
+				return false
+			}
+			if l := o.Int(1); l < 0 || l >= 64 {
+				return false
+			}
+			if k := o.Int(2); k < 0 || k >= 4 {
+				return false
+			}
+			if t, ok := lists[o.Int(1)]; ok {
+				total++
+				for _, b := range t {
+					total += behSize(b)
+				}
+			}
+		case "OConcS":
+			if m := o.Int(0); m < 0 || m >= 2 {
+				return false
+			}
+			if ns := o.Int(1); ns < 1 || ns > 8 {
+				return false
+			}
+			if rd := o.Int(2); rd < 0 || rd > 64 {
+				return false
+			}
+			for _, b := range parseTasks(o.List(3)) {
+				if !settles(b) {
+					return false
+				}
+			}
 		default:
 			panic("c15: unknown op " + o.Name)
 		}
 	}
 	if hasChain && total >= capQ-100 {
+		return false
+	}
+	if tracked && hasConc && hasOther {
 		return false
 	}
 	return true
@@ -375,6 +449,12 @@ type scriptRun struct {
 	mgr      *sche.Mgr
 	mgrIds   map[*sche.Sche]int64
 	timedOut bool
+	sawId0   bool    // id-tracked script: the consumer received a task whose id is 0
+	tracking bool    // id-tracked script: report RunTask.id of every task the consumer receives
+	hasChain bool    // chain script (posts never block): the shadow queue below is maintained
+	shadow   []int64 // per queued task, in queue order: the chain it belongs to, -1 = plain closure
+	curChain int64   // the chain whose closure / callback / caller goroutine is running now (shared lists)
+	lists    map[int64]*sharedList
 }
 
 // chainG: what the harness knows about one declared chain
@@ -494,6 +574,19 @@ func (r *scriptRun) consumerLoop(ready chan struct{}) {
 		select {
 		case t, ok := <-ch:
 			if ok && t != nil {
+				if r.tracking {
+					id := sche.VerifTaskId(t)
+					r.log.addRaw(hx.C("SId", int64(id)))
+					if id == 0 {
+						r.sawId0 = true
+					}
+				}
+				owner := int64(-1)
+				if r.hasChain && len(r.shadow) > 0 {
+					owner, r.shadow = r.shadow[0], r.shadow[1:]
+					atomic.StoreInt64(&r.curChain, owner)
+				}
+				n0 := len(ch)
 				func() {
 					defer func() {
 						if e := recover(); e != nil {
@@ -502,10 +595,22 @@ func (r *scriptRun) consumerLoop(ready chan struct{}) {
 					}()
 					r.s.DoTask(t)
 				}()
+				r.noteQueued(owner, n0) // what the closure posted belongs to its chain
 			}
 		default:
 		}
 		r.stepDone <- struct{}{}
+	}
+}
+
+// noteQueued: chain scripts never block, so whatever entered the queue since it held n0 tasks
+// was posted on behalf of `owner`.
+func (r *scriptRun) noteQueued(owner int64, n0 int) {
+	if !r.hasChain {
+		return
+	}
+	for d := len(r.s.GetChanTask()) - n0; d > 0; d-- {
+		r.shadow = append(r.shadow, owner)
 	}
 }
 
@@ -633,7 +738,19 @@ func Exec(ops []hx.T, tags map[string]bool) (obs any, nontrivial bool) {
 		chains:   map[int64]*chainG{},
 		mgr:      sche.NewScheMgr(),
 		mgrIds:   map[*sche.Sche]int64{},
+		lists:    map[int64]*sharedList{},
+		curChain: -1,
 	}
+	for _, o := range ops {
+		switch o.Name {
+		case "OSetId":
+			r.tracking = true
+		case "OChain", "OChainB", "OSimple", "OWait", "OFire", "OMgrGet", "OMgrDel", "OList", "OShare":
+			r.hasChain = true
+		}
+	}
+	// every case starts where a fresh process starts (the counter is process-wide)
+	sche.VerifSetNextTaskId(1)
 	ready := make(chan struct{})
 	go r.consumerLoop(ready)
 	<-ready
@@ -661,12 +778,14 @@ func Exec(ops []hx.T, tags map[string]bool) (obs any, nontrivial bool) {
 			if len(r.s.GetChanTask()) == capQ && !r.stopped && n > 0 {
 				tags["post-at-full"] = true
 			}
+			n0 := len(r.s.GetChanTask())
 			for j := int64(0); j < n; j++ {
 				g.submitted++
 				g.ch <- work{g.nextSeq, kind}
 				g.nextSeq++
 			}
 			r.settle()
+			r.noteQueued(-1, n0)
 			perOp = append(perOp, snapshot())
 		case "OStep":
 			r.doStep()
@@ -688,6 +807,7 @@ func Exec(ops []hx.T, tags map[string]bool) (obs any, nontrivial bool) {
 			if r.chains[c] == nil {
 				r.chains[c] = &chainG{kind: "sche"}
 				fns, final := buildChain(r.log, c, parseTasks(o.List(1)), r.setPending, nil)
+				n0 := len(r.s.GetChanTask())
 				func() {
 					defer func() {
 						if e := recover(); e != nil {
@@ -704,6 +824,7 @@ func Exec(ops []hx.T, tags map[string]bool) (obs any, nontrivial bool) {
 						b.Final(final).Do()
 					}
 				}()
+				r.noteQueued(c, n0)
 			}
 			perOp = append(perOp, snapshot())
 		case "OSimple":
@@ -748,8 +869,11 @@ func Exec(ops []hx.T, tags map[string]bool) (obs any, nontrivial bool) {
 			var extra []any
 			if f, ok := r.takePending(k); ok {
 				ch := r.chains[k.c]
+				atomic.StoreInt64(&r.curChain, k.c)
+				n0 := len(r.s.GetChanTask())
 				// the environment: some other goroutine completes the task
 				pan, stuck := r.goWait(f, ch.kind == "simple")
+				r.noteQueued(k.c, n0)
 				switch ch.kind {
 				case "sche":
 					if pan {
@@ -768,6 +892,32 @@ func Exec(ops []hx.T, tags map[string]bool) (obs any, nontrivial bool) {
 				}
 			}
 			perOp = append(perOp, append(snapshot(), extra...))
+		case "OSetId":
+			v := uint32(o.Int(0))
+			sche.VerifSetNextTaskId(v)
+			var extra []any
+			if sche.VerifNextTaskId() != v {
+				extra = append(extra, hx.C("SBad", 8)) // the hook did not position the counter
+			}
+			if v >= 1<<32-64 {
+				tags["id-near-wrap"] = true
+			}
+			perOp = append(perOp, append(snapshot(), extra...))
+		case "OList":
+			if l := o.Int(0); r.lists[l] == nil {
+				r.lists[l] = r.buildShared(parseTasks(o.List(1)))
+			}
+			perOp = append(perOp, snapshot())
+		case "OShare":
+			extra := r.startShared(o.Int(0), o.Int(1), o.Int(2), tags)
+			perOp = append(perOp, append(snapshot(), extra...))
+		case "OConcS":
+			ev, g, e := runConcS(o.Int(0), o.Int(1), o.Int(2), parseTasks(o.List(3)), tags)
+			gor, esc = gor && g, esc || e
+			if len(ev) > 0 {
+				nontrivial = true
+			}
+			perOp = append(perOp, ev)
 		case "OMgrGet":
 			got := r.mgr.GetSche(fmt.Sprintf("n%d", o.Int(0)))
 			id, ok := r.mgrIds[got]
@@ -851,6 +1001,9 @@ func Exec(ops []hx.T, tags map[string]bool) (obs any, nontrivial bool) {
 	if r.timedOut {
 		tags["TIMEOUT"] = true
 		gor = false // make a hang visible as a failed observation
+	}
+	if r.sawId0 {
+		tags["id0-received"] = true
 	}
 	return hx.C("Obs", perOp, drain, posts, gor, esc), nontrivial
 }
@@ -1077,8 +1230,28 @@ func runConc(mode int64, progs []any, tags map[string]bool) (events []any, gor, 
 	if !waitChan(doneCh, dead) && !dead() {
 		timedOut = true
 	}
-	if !waitUntil(func() bool { return int64(l.count()) >= atomic.LoadInt64(&accepted) || dead() }) {
+	// Every accepted closure is queued by now.  A sentinel behind them: once IT ran, each of
+	// them has been handed to DoTask (FIFO), so a closure that has not run by then was dropped
+	// and waiting longer will not bring it back (the acceptor reports it).
+	sentinel := make(chan struct{})
+	sent := !timedOut && s.Post(func() { close(sentinel) }) != nil
+	if !waitUntil(func() bool {
+		if int64(l.count()) >= atomic.LoadInt64(&accepted) || dead() {
+			return true
+		}
+		if sent {
+			select {
+			case <-sentinel:
+				return true
+			default:
+			}
+		}
+		return false
+	}) {
 		timedOut = true
+	}
+	if sent {
+		waitChan(sentinel, dead) // do not stop the scheduler under the sentinel
 	}
 	if !timedOut {
 		// anything executed twice would show up now
